@@ -7,7 +7,6 @@ import CookModel.Side.StdMeta
     yaml   n | b | t | s:<text> | i:<u64 or ~>:<text> | [y;y;…] | {y=y;y=y;…}
     conv   <unit_count>!<units>!<index>   units = <isTime 0/1>:<ratio bits>:<diff bits>/…   index = <text>=<unit no>/…
            (`-` for an empty list)
-    lits   <text>=<f64 bits>/…  or `-`       (str::parse::<f64> of the literals of the text, computed by the harness)
     alpha  <code point>,…  or `-`            (the characters of the text for which char::is_alphabetic holds)
 -/
 namespace Cook.Driver
@@ -84,12 +83,6 @@ def parseConv (s : String) : Option (Conv Float) :=
     some ⟨us ++ pad, fun name => (ix.find? (fun e => e.1 = name)).map (·.2)⟩
   | _ => none
 
-def parseLits (s : String) : Option (Str → Option Float) := do
-  let t ← (listArg s "/").mapM (fun e => match e.splitOn "=" with
-    | [k, b] => do let k ← parseText? k; let b ← parseBits? b; some (k, b)
-    | _ => none)
-  some (fun k => (t.find? (fun e => e.1 = k)).map (·.2))
-
 def parseAlpha (s : String) : Option (Char → Bool) := do
   let t ← (listArg s ",").mapM parseNat?
   some (fun c => t.contains c.toNat)
@@ -122,18 +115,18 @@ def renderSyn : Option F64Syn → String
   | some (.dec _) => "dec"
 
 def handleStdMeta : List String → Option String
-  | ["sm_minutes", conv, lits, y] => do
-    let c ← parseConv conv; let l ← parseLits lits; let y ← parseYamlS y
-    return renderMinutes (valueAsMinutes l c y)
-  | ["sm_time", conv, lits, y] => do
-    let c ← parseConv conv; let l ← parseLits lits; let y ← parseYamlS y
-    return renderTime (valueAsTime l c y)
+  | ["sm_minutes", conv, y] => do
+    let c ← parseConv conv; let y ← parseYamlS y
+    return renderMinutes (valueAsMinutes c y)
+  | ["sm_time", conv, y] => do
+    let c ← parseConv conv; let y ← parseYamlS y
+    return renderTime (valueAsTime c y)
   | ["sm_common", t] => do
     let t ← parseText? t
     return renderOptNat (commonTime t)
-  | ["sm_units", conv, lits, t] => do
-    let c ← parseConv conv; let l ← parseLits lits; let t ← parseText? t
-    return renderOptNat (parseTimeWithUnits l c t)
+  | ["sm_units", conv, t] => do
+    let c ← parseConv conv; let t ← parseText? t
+    return renderOptNat (parseTimeWithUnits c t)
   | ["sm_servings", y] => do
     let y ← parseYamlS y
     return match valueAsServings y with
@@ -157,12 +150,12 @@ def handleStdMeta : List String → Option String
     return match valueAsLocale y with
       | some r => s!"some {renderText r.1} {renderOptText r.2}"
       | none => "none"
-  | ["sm_stdcheck", conv, lits, alpha, key, y] => do
-    let c ← parseConv conv; let l ← parseLits lits; let a ← parseAlpha alpha
+  | ["sm_stdcheck", conv, alpha, key, y] => do
+    let c ← parseConv conv; let a ← parseAlpha alpha
     let key ← parseText? key; let y ← parseYamlS y
     return match StdKey.fromStr key with
       | none => "ok"
-      | some k => match checkStdEntry l c a k y with
+      | some k => match checkStdEntry c a k y with
         | none => "warn"
         | some none => "ok"
         | some (some s) => s!"ok servings {renderNats s}"
